@@ -724,3 +724,50 @@ impl CpcSketch {
         self.num_coupons
     }
 }
+
+/// Verification hook: plain dump of the internal state of a [`CpcSketch`].
+#[cfg(feature = "verif-hooks")]
+#[derive(Debug, Clone, PartialEq)]
+pub struct VerifCpcState {
+    /// Configured lg_k.
+    pub lg_k: u8,
+    /// Number of coupons collected.
+    pub num_coupons: u32,
+    /// Offset of the sliding window.
+    pub window_offset: u8,
+    /// Columns below this one are known to be full in every row.
+    pub first_interesting_column: u8,
+    /// The 8-bit window of every row (empty while sparse).
+    pub sliding_window: Vec<u8>,
+    /// Occupied slots of the surprising-value table as row << 6 | col, in slot order.
+    pub table: Vec<u32>,
+    /// Whether the sketch is the result of a merge (no HIP estimator).
+    pub merge_flag: bool,
+    /// The reconstructed k x 64 bit matrix.
+    pub bit_matrix: Vec<u64>,
+}
+
+#[cfg(feature = "verif-hooks")]
+impl CpcSketch {
+    /// Verification hook: feed a crafted coupon (row << 6 | col).
+    pub fn verif_row_col_update(&mut self, row_col: u32) {
+        self.row_col_update(row_col);
+    }
+
+    /// Verification hook: dump the internal state.
+    pub fn verif_state(&self) -> VerifCpcState {
+        VerifCpcState {
+            lg_k: self.lg_k,
+            num_coupons: self.num_coupons,
+            window_offset: self.window_offset,
+            first_interesting_column: self.first_interesting_column,
+            sliding_window: self.sliding_window.clone(),
+            table: match &self.surprising_value_table {
+                Some(t) => t.slots().iter().copied().filter(|&s| s != u32::MAX).collect(),
+                None => vec![],
+            },
+            merge_flag: self.merge_flag,
+            bit_matrix: self.build_bit_matrix(),
+        }
+    }
+}
